@@ -7,6 +7,7 @@ import DaskModel.Model.ArrOverlap
 import DaskModel.Model.SliceND
 import DaskModel.Model.SetItemND
 import DaskModel.Model.NormIndex
+import DaskModel.Model.VIndex
 open Dask
 open Dask.Slice1D
 open Dask.SetItem
@@ -16,6 +17,7 @@ open Dask.ArrOverlap
 open Dask.SliceND
 open Dask.SetItemND
 open Dask.NormIndex
+open Dask.VIndex
 
 /-! Line-protocol handlers of group `slicing` (C20, C21, C26, C29). -/
 
@@ -402,7 +404,24 @@ def hNormIndex : Handler := handler fun args =>
     | none => pure raised
   | _ => none
 
+/-- `(vindexplan ((lengths…)…) ((coord…)…))` ↦ `(raised)` | `(ok M (pointchunks…) ((key…) ((pos outidx (inblock…)) …)) …)`:
+    the slice/merge tasks of `_vindex_array`, one group per (output block, input blocks) in increasing key order -/
+def hVIndexPlan : Handler := handler fun args =>
+  match args with
+  | [cs, pts] => do
+    let cs ← cs.toNatss?
+    let pts ← pts.toIntss?
+    let M := maxPoints cs
+    match placeAll M cs 0 pts with
+    | none => pure raised
+    | some placed =>
+      pure (ok [SExp.ofNat M, SExp.ofNats (pointChunks M pts.length),
+        .list ((groups placed).map fun g =>
+          .list [SExp.ofNats g.1, .list (g.2.map fun q => .list [SExp.ofNat q.pos, SExp.ofNat q.outidx, SExp.ofInts q.inblock])])])
+  | _ => none
+
 def table : List (String × Handler) := [
+  ("vindexplan", hVIndexPlan),
   ("normindex", hNormIndex),
   ("setitemplan", hSetItemPlan),
   ("slicend", hSliceND),
